@@ -18,11 +18,17 @@ pub fn general_case(rng: &mut Rng) -> Option<Case> {
 fn prepare(stats: &mut Stats, case: &Case) -> Option<(Compiled, Value)> {
     let c = match compile_case(case) {
         CompileOutcome::Ok(c) => c,
-        CompileOutcome::Rejected(_) => {
+        CompileOutcome::Rejected(e) => {
+            if std::env::var("VERIF_DEBUG").is_ok() {
+                eprintln!("compiler rejected: {} :: {}", e, case.prog.summary());
+            }
             stats.skipped_rejected += 1;
             return None;
         }
-        CompileOutcome::Panic(_) => {
+        CompileOutcome::Panic(e) => {
+            if std::env::var("VERIF_DEBUG").is_ok() {
+                eprintln!("compiler panic: {} :: {}", e, case.prog.summary());
+            }
             stats.compile_panics += 1;
             return None;
         }
@@ -30,7 +36,10 @@ fn prepare(stats: &mut Stats, case: &Case) -> Option<(Compiled, Value)> {
     stats.compile_ms += c.compile_ms as u64;
     let r = match reference(&c, &case.inputs) {
         Ok(r) => r,
-        Err(_) => {
+        Err(e) => {
+            if std::env::var("VERIF_DEBUG").is_ok() {
+                eprintln!("reference error: {} :: {}", e, case.prog.summary());
+            }
             stats.skipped_reference_error += 1;
             return None;
         }
@@ -49,11 +58,12 @@ pub fn self_validate(stats: &mut Stats, case: &Case, c: &Compiled, seed: u64, de
     let inputs = crate::exec::party_inputs(case, c, &junk, dealer_seed)?;
     let mut ch = Chooser::replay(vec![]);
     let r = crate::trisim::Sim::new(&c.gv, cfg).run(&inputs, &mut ch);
+    let sh_t = crate::exec::shared_type(&c.out_type);
     match g {
         Ok(gv) => {
             for p in 0..3 {
                 match r.out[p].to_value() {
-                    Some(v) if v == gv => {}
+                    Some(v) if v == gv || crate::vals::typed_eq(if case.outputs.is_empty() { &sh_t } else { &c.out_type }, &v, &gv) => {}
                     Some(_) => return Err(format!("self-validation: party {} output differs from evaluate_graph under the shared tape", p)),
                     None => return Err(format!("self-validation: party {} output undefined: {:?}", p, r.out[p].first_poison())),
                 }
@@ -170,7 +180,9 @@ pub fn common_assumptions() -> Vec<String> {
 // C02
 // ---------------------------------------------------------------------------------------------
 
-pub fn c02_case(args: &Args, prop: &str, idx: usize, gen: &CaseGen, junk_plans: usize, schedules: usize) -> TriCaseOut {
+/// Generic case driver: generate, compile, reference, optional model check, then the C01 part
+/// (`c01_seeds` evaluator seeds) and/or the C02 part (`junk_plans` x `schedules`).
+pub fn tri_case(args: &Args, prop: &str, idx: usize, gen: &CaseGen, c01_seeds: usize, junk_plans: usize, schedules: usize) -> TriCaseOut {
     let mut stats = Stats::default();
     let mut rng = Rng::derive(args.seed, prop, idx as u64);
     stats.cases += 1;
@@ -190,15 +202,48 @@ pub fn c02_case(args: &Args, prop: &str, idx: usize, gen: &CaseGen, junk_plans: 
             return out;
         }
     };
+    if crate::refmodels::has_model(&case) {
+        if let Some(v) = crate::refmodels::model_check(&case, &c.out_type, &refv, &mut stats) {
+            let mut cfg = RunCfg::control(0);
+            cfg.parties = 1;
+            out.violation = Some(mk_replay(args, prop, idx, "model", &case, &c, &JunkPlan::uniform(JunkKind::True, 0), 0, &cfg, &[], v));
+            out.sample = Some(case_sample(&case, &c, serde_json::json!(null)));
+            out.stats = stats;
+            return out;
+        }
+    }
+    if c01_seeds > 0 {
+        c01_body(args, prop, idx, &mut rng, &case, &c, &refv, c01_seeds, &mut stats, &mut out);
+    }
+    if out.violation.is_none() && junk_plans > 0 {
+        c02_body(args, prop, idx, &mut rng, &case, &c, &refv, junk_plans, schedules, &mut stats, &mut out);
+    }
+    if case.outputs.is_empty() {
+        stats.probe("config:empty-output-set", 1);
+    }
+    if out.sample.is_none() {
+        out.sample = Some(case_sample(&case, &c, serde_json::json!(null)));
+    }
+    out.stats = stats;
+    out
+}
+
+pub fn c02_case(args: &Args, prop: &str, idx: usize, gen: &CaseGen, junk_plans: usize, schedules: usize) -> TriCaseOut {
+    tri_case(args, prop, idx, gen, 0, junk_plans, schedules)
+}
+
+#[allow(clippy::too_many_arguments)]
+fn c02_body(args: &Args, prop: &str, idx: usize, rng: &mut Rng, case: &Case, c: &Compiled, refv: &Value, junk_plans: usize, schedules: usize, stats: &mut Stats, out: &mut TriCaseOut) {
+    let (case, c, refv) = (case.clone(), c, refv.clone());
+    let mut rng = rng.fork("c02");
     let dealer_seed = rng.next_u64();
     let tapes = [rng.next_u64(), rng.next_u64(), rng.next_u64()];
     // self-validation of the simulator on a quarter of the cases
     if idx % 4 == 0 {
-        if let Err(e) = self_validate(&mut stats, &case, &c, tapes[0], dealer_seed) {
+        if let Err(e) = self_validate(stats, &case, c, tapes[0], dealer_seed) {
             let v = crate::exec::Violation { class: "harness-self-validation".into(), detail: e };
-            out.violation = Some(mk_replay(args, prop, idx, "party", &case, &c, &JunkPlan::uniform(JunkKind::True, 0), dealer_seed, &RunCfg::control(tapes[0]), &[], v));
-            out.stats = stats;
-            return out;
+            out.violation = Some(mk_replay(args, prop, idx, "party", &case, c, &JunkPlan::uniform(JunkKind::True, 0), dealer_seed, &RunCfg::control(tapes[0]), &[], v));
+            return;
         }
     }
     // fault-free configuration: true values at every party, independent tapes, lockstep
@@ -221,9 +266,9 @@ pub fn c02_case(args: &Args, prop: &str, idx: usize, gen: &CaseGen, junk_plans: 
     let mut last_info = serde_json::json!(null);
     for (pi, (junk, cfg)) in plans.iter().enumerate() {
         let mut ch = Chooser::record(Rng::derive(args.seed ^ 0x5c4ed, prop, (idx * 64 + pi) as u64));
-        let (r, v) = run_party(&case, &c, &refv, junk, dealer_seed, cfg, &mut ch);
-        account(&mut stats, junk, cfg, &r);
-        if let Some(k) = nontrivial_key(&case, &c, junk, r.ev_hash) {
+        let (r, v) = run_party(&case, c, &refv, junk, dealer_seed, cfg, &mut ch);
+        account(stats, junk, cfg, &r);
+        if let Some(k) = nontrivial_key(&case, c, junk, r.ev_hash) {
             stats.nontrivial.insert(k);
         }
         last_info = serde_json::json!({"junk": format!("{:?}", junk.kind), "policy": format!("{:?}", cfg.policy), "delivery": format!("{:?}", cfg.delivery),
@@ -233,16 +278,11 @@ pub fn c02_case(args: &Args, prop: &str, idx: usize, gen: &CaseGen, junk_plans: 
                 stats.aborted += 1;
                 continue;
             }
-            out.violation = Some(mk_replay(args, prop, idx, "party", &case, &c, junk, dealer_seed, cfg, &r.choices, v));
+            out.violation = Some(mk_replay(args, prop, idx, "party", &case, c, junk, dealer_seed, cfg, &r.choices, v));
             break;
         }
     }
-    if case.outputs.is_empty() {
-        stats.probe("config:empty-output-set", 1);
-    }
-    out.sample = Some(case_sample(&case, &c, last_info));
-    out.stats = stats;
-    out
+    out.sample = Some(case_sample(&case, c, last_info));
 }
 
 pub fn run_c02(args: &Args) -> i32 {
@@ -273,40 +313,28 @@ pub fn run_c02(args: &Args) -> i32 {
 // ---------------------------------------------------------------------------------------------
 
 pub fn c01_case(args: &Args, prop: &str, idx: usize, gen: &CaseGen, seeds: usize) -> TriCaseOut {
-    let mut stats = Stats::default();
-    let mut rng = Rng::derive(args.seed, prop, idx as u64);
-    stats.cases += 1;
-    let mut out = TriCaseOut { stats: Stats::default(), violation: None, sample: None };
-    let case = match gen(&mut rng) {
-        Some(c) => c,
-        None => {
-            stats.skipped_rejected += 1;
-            out.stats = stats;
-            return out;
-        }
-    };
-    let (c, refv) = match prepare(&mut stats, &case) {
-        Some(x) => x,
-        None => {
-            out.stats = stats;
-            return out;
-        }
-    };
+    tri_case(args, prop, idx, gen, seeds, 0, 0)
+}
+
+#[allow(clippy::too_many_arguments)]
+fn c01_body(args: &Args, prop: &str, idx: usize, rng: &mut Rng, case: &Case, c: &Compiled, refv: &Value, seeds: usize, stats: &mut Stats, out: &mut TriCaseOut) {
+    let (case, refv) = (case.clone(), refv.clone());
+    let mut rng = rng.fork("c01");
     let true_junk = JunkPlan::uniform(JunkKind::True, 0);
     let mut last_info = serde_json::json!(null);
     'seeds: for s in 0..seeds {
         let seed = rng.next_u64();
         let dealer_seed = rng.next_u64();
         // (b) the repository's own local run
-        let ins = match global_inputs(&case, &c, dealer_seed) {
+        let ins = match global_inputs(&case, c, dealer_seed) {
             Ok(i) => i,
             Err(_) => break,
         };
         stats.runs += 1;
         stats.runs_fault_free += 1;
-        let gr = global_run(&c, ins, seed);
+        let gr = global_run(c, ins, seed);
         let viol = match &gr {
-            Ok(v) => check_global_output(&case, &c, v, &refv),
+            Ok(v) => check_global_output(&case, c, v, &refv),
             Err(e) => Some(crate::exec::Violation { class: "output-error".into(), detail: e.clone() }),
         };
         if let Some(v) = viol {
@@ -315,15 +343,15 @@ pub fn c01_case(args: &Args, prop: &str, idx: usize, gen: &CaseGen, seeds: usize
             } else {
                 let mut cfg = RunCfg::control(seed);
                 cfg.parties = 1;
-                out.violation = Some(mk_replay(args, prop, idx, "global", &case, &c, &true_junk, dealer_seed, &cfg, &[], v));
+                out.violation = Some(mk_replay(args, prop, idx, "global", &case, c, &true_junk, dealer_seed, &cfg, &[], v));
                 break 'seeds;
             }
         }
         // (d) lockstep shared-tape three-party run must coincide with (b)
         if s == 0 {
-            if let Err(e) = self_validate(&mut stats, &case, &c, seed, dealer_seed) {
+            if let Err(e) = self_validate(stats, &case, c, seed, dealer_seed) {
                 let v = crate::exec::Violation { class: "harness-self-validation".into(), detail: e };
-                out.violation = Some(mk_replay(args, prop, idx, "party", &case, &c, &true_junk, dealer_seed, &RunCfg::control(seed), &[], v));
+                out.violation = Some(mk_replay(args, prop, idx, "party", &case, c, &true_junk, dealer_seed, &RunCfg::control(seed), &[], v));
                 break 'seeds;
             }
         }
@@ -336,9 +364,9 @@ pub fn c01_case(args: &Args, prop: &str, idx: usize, gen: &CaseGen, seeds: usize
                 cfg.policy = Policy::RandomTopo;
             }
             let mut ch = Chooser::record(Rng::derive(args.seed ^ 0xc01, prop, (idx * 64 + s * 4 + k) as u64));
-            let (r, v) = run_party(&case, &c, &refv, &true_junk, dealer_seed, &cfg, &mut ch);
-            account(&mut stats, &true_junk, &cfg, &r);
-            if let Some(key) = nontrivial_key(&case, &c, &true_junk, r.ev_hash) {
+            let (r, v) = run_party(&case, c, &refv, &true_junk, dealer_seed, &cfg, &mut ch);
+            account(stats, &true_junk, &cfg, &r);
+            if let Some(key) = nontrivial_key(&case, c, &true_junk, r.ev_hash) {
                 stats.nontrivial.insert(key);
             }
             last_info = serde_json::json!({"one_party_policy": format!("{:?}", cfg.policy), "addressed_tape": cfg.addressed, "restart_per_mille": cfg.restart_pm,
@@ -348,17 +376,12 @@ pub fn c01_case(args: &Args, prop: &str, idx: usize, gen: &CaseGen, seeds: usize
                     stats.aborted += 1;
                     continue;
                 }
-                out.violation = Some(mk_replay(args, prop, idx, "party", &case, &c, &true_junk, dealer_seed, &cfg, &r.choices, v));
+                out.violation = Some(mk_replay(args, prop, idx, "party", &case, c, &true_junk, dealer_seed, &cfg, &r.choices, v));
                 break 'seeds;
             }
         }
     }
-    if case.outputs.is_empty() {
-        stats.probe("config:empty-output-set", 1);
-    }
-    out.sample = Some(case_sample(&case, &c, last_info));
-    out.stats = stats;
-    out
+    out.sample = Some(case_sample(&case, c, last_info));
 }
 
 pub fn run_c01(args: &Args) -> i32 {
@@ -374,6 +397,49 @@ pub fn run_c01(args: &Args) -> i32 {
         "C01",
         "exploration",
         "cases = seeded DSL programs x owner vector x output set (incl. empty) x inline mode, compiled by the real pipeline; per case and evaluator seed: the repository's own evaluate_graph on the compiled main graph, the lockstep shared-tape three-party control run (must coincide), and one-party runs in seeded topological orders with evaluator restarts/migration in stream and addressed tape modes. distinct_nontrivial = distinct (program, configuration, event-order hash) tuples with >=1 Send and >=1 private input",
+        results,
+        t0.elapsed().as_secs_f64(),
+        common_assumptions(),
+        n,
+    )
+}
+
+pub fn run_c19(args: &Args) -> i32 {
+    let t0 = std::time::Instant::now();
+    let n = args.cases.unwrap_or(match args.tier {
+        Tier::Quick => 48,
+        Tier::Thorough => 3000,
+    });
+    let max_rows = 6;
+    let gen = move |rng: &mut Rng| Some(crate::gen_tables::join_case(rng, max_rows).0);
+    let results = run_cases(n, args.threads, |r: &TriCaseOut| r.violation.is_some(), |i| tri_case(args, "C19", i, &gen, 1, 2, 1));
+    finish(
+        args,
+        "C19",
+        "exploration",
+        "cases = seeded pairs of tables (1..6 rows each, null rows anywhere, 1..3 key columns of random scalar types and row shapes, masked key entries in the masked variant, disjoint/partial/heavy key overlap, 0..2 payload columns) x 4 join types x masked/unmasked x owners x output sets x inline modes; per case: plaintext result vs the harness's reference relational join, the compiled graph's local run, and three-party simulated runs under junk/tape/schedule/network faults. distinct_nontrivial as in C02",
+        results,
+        t0.elapsed().as_secs_f64(),
+        common_assumptions(),
+        n,
+    )
+}
+
+pub fn run_c18(args: &Args) -> i32 {
+    let t0 = std::time::Instant::now();
+    let n = args.cases.unwrap_or(match args.tier {
+        Tier::Quick => 300,
+        Tier::Thorough => 20000,
+    });
+    let gen = move |rng: &mut Rng| {
+        Some(if rng.chance(2, 3) { crate::gen_tables::sort_case(rng).0 } else { crate::gen_tables::perm_case(rng).0 })
+    };
+    let results = run_cases(n, args.threads, |r: &TriCaseOut| r.violation.is_some(), |i| tri_case(args, "C18", i, &gen, 1, 2, 1));
+    finish(
+        args,
+        "C18",
+        "exploration",
+        "cases = seeded tables (1..12 rows, bit keys of width 1..10 or integer keys of all integer types, heavy key duplication, 0..2 payload columns of any scalar type and rank) sorted by Sort / SortByIntegerKey, and ApplyPermutation(+-inverse) round trips; per case: plaintext result vs reference stable sort / permutation model, compiled local run, three-party simulated runs under junk/tape/schedule/network faults",
         results,
         t0.elapsed().as_secs_f64(),
         common_assumptions(),
@@ -441,7 +507,13 @@ pub fn dump_replay(rp: &TriReplay) {
     let ot = if rp.case.outputs.is_empty() { &shared_t } else { &c.out_type };
     if let Ok(ins) = global_inputs(&rp.case, &c, rp.dealer_seed) {
         match global_run(&c, ins, rp.cfg.tapes[0]) {
-            Ok(v) => println!("global run: {}", crate::vals::render(ot, &v)),
+            Ok(v) => {
+                println!("global run: {}", crate::vals::render(ot, &v));
+                println!("global raw: {}", crate::vals::raw_bytes_hex(&v));
+                if let Ok(r) = &refv {
+                    println!("ref raw:    {}", crate::vals::raw_bytes_hex(r));
+                }
+            }
             Err(e) => println!("global run error: {}", e),
         }
     }
